@@ -392,6 +392,85 @@ func Fill(x, y int) int {
 	}
 	return p.first + p.second
 }
+
+// --- a helper that yields a zero value next to its error, phases as bound method values, a verdict with a reason
+type rec struct{ n int }
+
+func settle(k int) (rec, error) {
+	r := rec{n: k}
+	if _, err := a(); err != nil {
+		return rec{}, err
+	}
+	r.n++
+	return r, nil
+}
+
+func Settle(k int) int {
+	r, err := settle(k)
+	if err != nil {
+		return -1
+	}
+	sink(r.n)
+	return r.n
+}
+
+type phases struct{ done int }
+
+func (p *phases) one() error { _, err := a(); return err }
+func (p *phases) two() error { return call() }
+
+func Phases() error {
+	var p phases
+	for _, ph := range []func() error{p.one, p.two} {
+		if err := ph(); err != nil {
+			return err
+		}
+	}
+	return nil
+}
+
+type verdict struct {
+	reason string
+	ban    error
+}
+
+func judge(k int) verdict {
+	if k < 0 {
+		return verdict{ban: errors.New("negative")}
+	}
+	if k == 0 {
+		return verdict{reason: fmt.Sprintf("zero (%d)", k)}
+	}
+	return verdict{}
+}
+
+func Enforce(k int) {
+	v := judge(k)
+	switch {
+	case v.ban != nil:
+		rollback()
+	case v.reason != "":
+		release()
+	}
+}
+
+var errSentinel = errors.New("sentinel")
+
+func firstFailure(xs []int) error {
+	var err error
+	for i := 0; i < len(xs) && err == nil; i++ {
+		if xs[i] < 0 {
+			err = errSentinel
+		} else {
+			sink(xs[i])
+		}
+	}
+	if err != nil {
+		return err
+	}
+	put()
+	return nil
+}
 `
 
 // leaf: the functions standing for external API (kept as calls in every view).
@@ -828,5 +907,73 @@ func TestTriStateResultEntersItsCase(t *testing.T) {
 	}
 	if len(hit) == 0 || !w.OnlyVia(callNode(t, w, "del"), hit) {
 		t.Errorf("comparison with a constant not threaded:\n%s", render(t, w.Body))
+	}
+}
+
+func TestSharingOverZeroValuedFailureReturn(t *testing.T) {
+	p := loadTest(t)
+	v := p.Expand(fn(t, p, "Settle"), ExpandOpt{Key: "t", Stop: leaf})
+	guarded := v.OnlyVia(callNode(t, v, "sink"), successEdges(v, "a"))
+	out := render(t, v.Body) // (clears positions: last)
+	// the helper's record is the caller's: the increment is a write of the caller's variable, no copy at the return
+	if !strings.Contains(out, "r_n++") && !strings.Contains(out, "r.n++") {
+		t.Errorf("helper's result variable not shared with the caller:\n%s", out)
+	}
+	if !guarded {
+		t.Errorf("use of the result reachable on the helper's failure path:\n%s", out)
+	}
+}
+
+func TestTableOfMethodValuesIsUnrolled(t *testing.T) {
+	p := loadTest(t)
+	v := p.Expand(fn(t, p, "Phases"), ExpandOpt{Key: "t", Stop: leaf})
+	if !v.OnlyVia(callNode(t, v, "call"), successEdges(v, "a")) {
+		t.Errorf("second phase reachable without the first having succeeded:\n%s", render(t, v.Body))
+	}
+}
+
+func TestStringReasonIsFollowedLikeANilable(t *testing.T) {
+	p := loadTest(t)
+	v := p.Expand(fn(t, p, "Enforce"), ExpandOpt{Key: "t", Stop: leaf})
+	g := v.Graph()
+	// release() only for k == 0, rollback() only for k < 0
+	var zero, neg []*cfgx.Edge
+	for _, n := range g.Nodes {
+		if n.Block != nil && n.Block.Cond == n.AST && len(n.Succs) == 2 {
+			if be, ok := n.AST.(*ast.BinaryExpr); ok {
+				if id, isID := be.X.(*ast.Ident); isID && id.Name == "k" {
+					switch be.Op {
+					case token.EQL:
+						zero = append(zero, n.Succs[0])
+					case token.LSS:
+						neg = append(neg, n.Succs[0])
+					}
+				}
+			}
+		}
+	}
+	if len(zero) == 0 || len(neg) == 0 || !v.OnlyVia(callNode(t, v, "release"), zero) || !v.OnlyVia(callNode(t, v, "rollback"), neg) {
+		t.Errorf("the verdict's fields are not correlated with the arm that set them:\n%s", render(t, v.Body))
+	}
+}
+
+func TestSentinelErrorEndsTheLoop(t *testing.T) {
+	p := loadTest(t)
+	v := p.Expand(fn(t, p, "firstFailure"), ExpandOpt{Key: "t", Stop: leaf})
+	g := v.Graph()
+	// put() is not reachable once the sentinel was assigned
+	var set []*cfgx.Edge
+	for _, n := range g.Nodes {
+		if as, ok := n.AST.(*ast.AssignStmt); ok && len(as.Rhs) == 1 {
+			if id, isID := as.Rhs[0].(*ast.Ident); isID && id.Name == "errSentinel" {
+				set = append(set, n.Preds...) // (the walk starts at the assignment, so that it is seen)
+			}
+		}
+	}
+	if len(set) == 0 {
+		t.Fatalf("assignment of the sentinel not found:\n%s", render(t, v.Body))
+	}
+	if _, reached := v.ReachableFromEdges(set, nil)[callNode(t, v, "put")]; reached {
+		t.Errorf("success continuation reachable with the sentinel error set:\n%s", render(t, v.Body))
 	}
 }
